@@ -1,4 +1,5 @@
 import TpmVerif.Model.Persist
+import TpmVerif.Model.Admin
 /-!
   C03 — acknowledged persistent changes are in storage and survive a restart.
   Theorems about the commit protocol (`Model.Persist`), for every image type, every mask, every sequence of
@@ -158,3 +159,161 @@ theorem cut_restart (mask : ι → κ) (s : St ι) (hs : Synced mask s) :
 example : Synced (fun (x : Nat × Nat) => x.1) ({ nv := (1, 5), disk := some (1, 3) } : St (Nat × Nat)) := ⟨rfl, (1, 3), rfl, rfl⟩
 
 end TpmVerif.Props.C03
+
+/-! ### The administrative state (hierarchy authorizations, policies, enables, seeds, proofs, audit and PP sets) -/
+
+namespace TpmVerif.Props.C03.Admin
+open TpmVerif TpmVerif.Model.Admin
+
+/-- **a refused administrative command changes nothing** -/
+theorem refused_unchanged (s : St) (op : Op) (pw : Bytes) (pp : Bool) (h : (step s op pw pp).2 ≠ 0) : (step s op pw pp).1 = s := by
+  unfold step at h ⊢
+  by_cases hg : gate s op pw pp ≠ 0
+  · simp [hg]
+  · simp only [hg, if_false] at h ⊢
+    cases op with
+    | changeAuth ah new => simp [exec] at h
+    | setPolicy ah alg d => simp [exec] at h
+    | clearControl ah dis =>
+      by_cases hc : ah = .lockout ∧ dis = false
+      · simp [exec, hc]
+      · simp [exec, hc] at h
+    | clear ah =>
+      by_cases hc : s.disableClear = true
+      · simp [exec, hc]
+      · simp [exec, hc] at h
+    | changeEPS => simp [exec] at h
+    | changePPS => simp [exec] at h
+    | control ah en st =>
+      by_cases hc : controlRefused s ah en st = true
+      · simp [exec, hc]
+      · simp [exec, hc] at h
+    | setAudit ah alg set clear =>
+      by_cases h1 : alg ≠ 0x10 ∧ alg ≠ s.auditAlg
+      · by_cases h2 : set ≠ [] ∨ clear ≠ []
+        · simp [exec, h1, h2]
+        · simp [exec, h1, h2] at h
+      · simp [exec, h1] at h
+    | ppCommands set clear => simp [exec] at h
+
+/-- **a wrong password never gets an administrative command through** -/
+theorem wrong_password_refused (s : St) (op : Op) (pw : Bytes) (pp : Bool) (h : stripZeros pw ≠ s.auth (ahOf op)) :
+    (step s op pw pp).2 ≠ 0 := by
+  have hg : gate s op pw pp ≠ 0 := by
+    unfold gate
+    by_cases h1 : (!usable s (ahOf op)) = true
+    · simp [h1, RC_HIERARCHY]
+    · by_cases h2 : ahOf op = H.platform ∧ s.pp (ccOf op) = true ∧ (!pp) = true
+      · have hu : usable s H.platform = true := rfl
+        simp [h2, hu, RC_PP]
+      · simp only [h1, h2, h, if_false, if_true, ne_eq, not_false_eq_true, Bool.false_eq_true]
+        split <;> simp [RC_AUTH_FAIL_S, RC_BAD_AUTH]
+  unfold step
+  simp [hg]
+
+/-- **a disabled hierarchy authorizes nothing** -/
+theorem disabled_hierarchy_refused (s : St) (op : Op) (pw : Bytes) (pp : Bool) (h : usable s (ahOf op) = false) :
+    (step s op pw pp).2 = RC_HIERARCHY := by
+  have hg : gate s op pw pp = RC_HIERARCHY := by unfold gate; simp [h]
+  unfold step
+  simp [hg, RC_HIERARCHY]
+
+/-- a command on the physical-presence list, authorized by the platform, needs physical presence -/
+theorem pp_needed (s : St) (op : Op) (pw : Bytes) (hu : usable s (ahOf op) = true) (ha : ahOf op = .platform) (hl : s.pp (ccOf op) = true) :
+    (step s op pw false).2 = RC_PP := by
+  have hu' : usable s H.platform = true := rfl
+  have hg : gate s op pw false = RC_PP := by unfold gate; simp [ha, hl, hu']
+  unfold step
+  simp [hg, RC_PP]
+
+/-- **TPM2_Clear while disableClear is set is refused; lockoutAuth cannot switch disableClear off** -/
+theorem clear_disabled (s : St) (ah : H) (h : s.disableClear = true) : exec s (.clear ah) = (s, RC_DISABLED) := by simp [exec, h]
+theorem lockout_cannot_enable_clear (s : St) : exec s (.clearControl .lockout false) = (s, RC_AUTH_FAIL) := by simp [exec]
+
+/-- **what TPM2_Clear leaves**: owner, endorsement and lockout authorization and policy are gone, both hierarchies are
+    enabled, the storage seed and both proofs are new; platform authorization, disableClear, audit and PP lists stay -/
+theorem clear_effect (s : St) (ah : H) (h : s.disableClear = false) :
+    let s' := (exec s (.clear ah)).1
+    s'.auth .owner = [] ∧ s'.auth .endorsement = [] ∧ s'.auth .lockout = [] ∧ s'.auth .platform = s.auth .platform ∧
+    s'.polAlg .owner = 0x10 ∧ s'.polAlg .endorsement = 0x10 ∧ s'.polAlg .lockout = 0x10 ∧
+    s'.shEnable = true ∧ s'.ehEnable = true ∧ s'.seedGen .owner = s.seedGen .owner + 1 ∧
+    s'.proofGen .owner = s.proofGen .owner + 1 ∧ s'.proofGen .endorsement = s.proofGen .endorsement + 1 ∧
+    s'.disableClear = false ∧ s'.audit = s.audit ∧ s'.pp = s.pp := by
+  simp [exec, h, setH]
+
+/-- **only the platform switches a disabled hierarchy on again** -/
+theorem only_platform_reenables (s : St) (ah : H) (hp : ah ≠ .platform) :
+    (s.shEnable = false → (exec s (.control ah .owner true)).2 = RC_AUTH_TYPE) ∧
+    (s.ehEnable = false → (exec s (.control ah .endorsement true)).2 = RC_AUTH_TYPE) := by
+  constructor <;> intro h <;> cases ah <;> simp_all [exec, controlRefused]
+
+/-- **a Reset or Restart keeps the persistent part** (authValues and policies of owner, endorsement and lockout, disableClear,
+    seeds, proofs, the audit hash) and the audit and physical-presence sets -/
+theorem restart_keeps_persistent (s : St) :
+    persistent (restartClear s) = persistent s ∧ (restartClear s).audit = s.audit ∧ (restartClear s).pp = s.pp := by
+  simp [persistent, restartClear, setH]
+
+/-- … and starts the volatile part again: no platform authorization or policy, every hierarchy enabled -/
+theorem restart_resets_volatile (s : St) :
+    (restartClear s).auth .platform = [] ∧ (restartClear s).polAlg .platform = 0x10 ∧
+    (restartClear s).shEnable = true ∧ (restartClear s).ehEnable = true ∧ (restartClear s).phEnableNV = true := by
+  simp [restartClear, setH]
+
+/-- histories: commands (with the password sent and the physical-presence signal) and restarts -/
+inductive Ev where
+  | cmd (op : Op) (pw : Bytes) (pp : Bool)
+  | restart (resume : Bool)
+
+def apply (s : St) : Ev → St
+  | .cmd op pw pp => (step s op pw pp).1
+  | .restart resume => if resume then s else restartClear s
+def run (s : St) (es : List Ev) : St := es.foldl apply s
+
+/-- **after any history, a power cut (= Reset) leaves exactly the persistent part that was there** -/
+theorem cut_after_any_history (s : St) (es : List Ev) :
+    persistent (restartClear (run s es)) = persistent (run s es) := (restart_keeps_persistent _).1
+
+/-- seeds and proofs only move forward, whatever the history -/
+theorem gens_step_mono (s : St) (e : Ev) (h : H) : s.seedGen h ≤ (apply s e).seedGen h ∧ s.proofGen h ≤ (apply s e).proofGen h := by
+  cases e with
+  | restart r => cases r <;> simp [apply, restartClear]
+  | cmd op pw pp =>
+    simp only [apply, step]
+    by_cases hg : gate s op pw pp ≠ 0
+    · simp [hg]
+    · simp only [hg, if_false]
+      cases op with
+      | changeAuth ah new => simp [exec]
+      | setPolicy ah alg d => simp [exec]
+      | clearControl ah dis => by_cases hc : ah = .lockout ∧ dis = false <;> simp [exec, hc]
+      | clear ah => by_cases hc : s.disableClear = true <;> simp [exec, hc, setH] <;> (cases h <;> simp)
+      | changeEPS => simp [exec, setH]; cases h <;> simp
+      | changePPS => simp [exec, setH]; cases h <;> simp
+      | control ah en st => by_cases hc : controlRefused s ah en st = true <;> simp [exec, hc] <;> (cases en <;> simp)
+      | setAudit ah alg set clear =>
+        by_cases h1 : alg ≠ 0x10 ∧ alg ≠ s.auditAlg
+        · by_cases h2 : set ≠ [] ∨ clear ≠ [] <;> simp [exec, h1, h2]
+        · simp [exec, h1]
+      | ppCommands set clear => simp [exec]
+
+theorem gens_run_mono (es : List Ev) : ∀ (s : St) (h : H), s.seedGen h ≤ (run s es).seedGen h ∧ s.proofGen h ≤ (run s es).proofGen h := by
+  induction es with
+  | nil => intro s h; simp [run]
+  | cons e es ih =>
+    intro s h
+    have h1 := gens_step_mono s e h
+    have h2 := ih (apply s e) h
+    simp only [run, List.foldl] at h2 ⊢
+    exact ⟨Nat.le_trans h1.1 h2.1, Nat.le_trans h1.2 h2.2⟩
+
+/-- the authValue set by a successful HierarchyChangeAuth is the new value without trailing zeros, and the other
+    hierarchies keep theirs -/
+theorem changeAuth_effect (s : St) (ah : H) (new : Bytes) :
+    (exec s (.changeAuth ah new)).1.auth ah = stripZeros new ∧ ∀ h, h ≠ ah → (exec s (.changeAuth ah new)).1.auth h = s.auth h := by
+  simp [exec, setH]
+  intro h hne; simp [hne]
+
+example : (step {} (.clear .platform) [] false).2 = 0 := by decide
+example : (step {} (.clear .platform) [0x7a] false).2 = RC_BAD_AUTH := by decide
+
+end TpmVerif.Props.C03.Admin
